@@ -8,7 +8,7 @@
 \* no 'r' constraint).  The harness re-derives every fact of this table from the working tree (row path, type,
 \* attribute membership, attribute type/arity/enum, constraints) and refuses to run on a mismatch.
 \*
-\* A document is a prefix-closed set of nodes [path, tag, attrs], attrs = set of <<name, value class>>:
+\* A document is a prefix-closed set of nodes [path, tag, attrs], attrs = set of <<name, value class, type class>>:
 \*     "ok"      a well-typed value (number(s) of the right count / a keyword of the attribute's enum / text)
 \*     "text"    text where a number is required          "nonint"  1.5 where an int is required
 \*     "many"    more numbers than the arity allows       "few"     fewer numbers than an exact arity requires
@@ -34,14 +34,14 @@ BadOf(ty) == IF ty = "s" THEN {}
              ELSE {"kwbad"}                         \* "kw": keyword of the enum the real schema declares
 
 A(n, t) == <<n, t>>
-Row == [i \in 1..20 |->
+Row == [i \in 1..24 |->
   CASE i = 1  -> [name |-> "mujoco", type |-> "!", attrs |-> {A("model", "s")}, subs |-> <<2, 3, 4, 5, 11, 14, 16>>, cons |-> {}]
     [] i = 2  -> [name |-> "option", type |-> "*",
                   attrs |-> {A("timestep", "d1"), A("gravity", "d3"), A("integrator", "kw"), A("iterations", "i1")},
                   subs |-> <<>>, cons |-> {}]
     [] i = 3  -> [name |-> "size", type |-> "*", attrs |-> {A("memory", "s"), A("njmax", "i1"), A("nstack", "i1")}, subs |-> <<>>,
                   cons |-> {[kind |-> "e", b |-> <<{"memory"}, {"njmax"}>>], [kind |-> "e", b |-> <<{"memory"}, {"nstack"}>>]}]
-    [] i = 4  -> [name |-> "default", type |-> "R", attrs |-> {A("class", "s")}, subs |-> <<18, 19>>, cons |-> {}]
+    [] i = 4  -> [name |-> "default", type |-> "R", attrs |-> {A("class", "s")}, subs |-> <<18, 19, 21, 22, 23>>, cons |-> {}]
     [] i = 5  -> [name |-> "body", type |-> "R", attrs |-> {A("name", "s"), A("pos", "d3"), A("mocap", "kw")},
                   subs |-> <<6, 7, 8, 9, 10>>, cons |-> {}]
     [] i = 6  -> [name |-> "inertial", type |-> "?",
@@ -55,7 +55,7 @@ Row == [i \in 1..20 |->
                   attrs |-> {A("name", "s"), A("type", "kw"), A("size", "v3"), A("condim", "i1"), A("fromto", "d6")},
                   subs |-> <<>>, cons |-> {}]
     [] i = 10 -> [name |-> "site", type |-> "*", attrs |-> {A("name", "s"), A("pos", "d3")}, subs |-> <<>>, cons |-> {}]
-    [] i = 11 -> [name |-> "equality", type |-> "*", attrs |-> {}, subs |-> <<12, 13>>, cons |-> {}]
+    [] i = 11 -> [name |-> "equality", type |-> "*", attrs |-> {}, subs |-> <<12, 13, 24>>, cons |-> {}]
     [] i = 12 -> [name |-> "connect", type |-> "*",
                   attrs |-> {A("name", "s"), A("body1", "s"), A("body2", "s"), A("anchor", "d3"), A("site1", "s"), A("site2", "s")},
                   subs |-> <<>>,
@@ -81,6 +81,10 @@ Row == [i \in 1..20 |->
                   subs |-> <<>>, cons |-> {}]
     [] i = 19 -> [name |-> "geom", type |-> "?", attrs |-> {A("type", "kw"), A("size", "v3"), A("condim", "i1")},
                   subs |-> <<>>, cons |-> {}]
+    [] i = 21 -> [name |-> "site", type |-> "?", attrs |-> {A("pos", "d3"), A("group", "i1")}, subs |-> <<>>, cons |-> {}]
+    [] i = 22 -> [name |-> "equality", type |-> "?", attrs |-> {A("active", "kw")}, subs |-> <<>>, cons |-> {}]
+    [] i = 23 -> [name |-> "motor", type |-> "?", attrs |-> {A("gear", "v6"), A("ctrllimited", "kw")}, subs |-> <<>>, cons |-> {}]
+    [] i = 24 -> [name |-> "joint", type |-> "*", attrs |-> {A("name", "s"), A("joint1", "s"), A("joint2", "s")}, subs |-> <<>>, cons |-> {}]
     [] OTHER  -> [name |-> "framepos", type |-> "*",
                   attrs |-> {A("name", "s"), A("objtype", "kw"), A("objname", "s"), A("reftype", "kw"), A("refname", "s")},
                   subs |-> <<>>, cons |-> {[kind |-> "t", b |-> <<{"reftype"}, {"refname"}>>]}]]
@@ -137,19 +141,19 @@ Verdict(d) == [valid |-> Kinds(d, TRUE) = {}, validcode |-> Kinds(d, FALSE) = {}
 
 N(p, t, as) == [path |-> p, tag |-> t, attrs |-> as]
 SkelA(root) == {N(<<>>, root, {}), N(<<1>>, "option", {}), N(<<2>>, "worldbody", {}), N(<<2, 1>>, "body", {}),
-                N(<<2, 1, 1>>, "geom", {<<"size", "ok">>})}
-SkelB == {N(<<>>, "mujoco", {<<"model", "ok">>}), N(<<1>>, "default", {}), N(<<1, 1>>, "geom", {<<"size", "ok">>}),
-          N(<<2>>, "worldbody", {}), N(<<2, 1>>, "body", {<<"name", "ok">>}),
-          N(<<2, 1, 1>>, "inertial", {<<"pos", "ok">>, <<"mass", "ok">>}), N(<<2, 1, 2>>, "joint", {<<"name", "ok">>}),
-          N(<<2, 1, 3>>, "geom", {<<"size", "ok">>}), N(<<2, 1, 4>>, "frame", {}), N(<<2, 1, 4, 1>>, "geom", {<<"size", "ok">>}),
-          N(<<3>>, "equality", {}), N(<<3, 1>>, "connect", {<<"body1", "ok">>, <<"anchor", "ok">>}),
-          N(<<4>>, "actuator", {}), N(<<4, 1>>, "motor", {<<"joint", "ok">>}),
-          N(<<5>>, "sensor", {}), N(<<5, 1>>, "rangefinder", {<<"site", "ok">>})}
+                N(<<2, 1, 1>>, "geom", {<<"size", "ok", "v3">>})}
+SkelB == {N(<<>>, "mujoco", {<<"model", "ok", "s">>}), N(<<1>>, "default", {}), N(<<1, 1>>, "geom", {<<"size", "ok", "v3">>}),
+          N(<<2>>, "worldbody", {}), N(<<2, 1>>, "body", {<<"name", "ok", "s">>}),
+          N(<<2, 1, 1>>, "inertial", {<<"pos", "ok", "d3">>, <<"mass", "ok", "d1">>}), N(<<2, 1, 2>>, "joint", {<<"name", "ok", "s">>}),
+          N(<<2, 1, 3>>, "geom", {<<"size", "ok", "v3">>}), N(<<2, 1, 4>>, "frame", {}), N(<<2, 1, 4, 1>>, "geom", {<<"size", "ok", "v3">>}),
+          N(<<3>>, "equality", {}), N(<<3, 1>>, "connect", {<<"body1", "ok", "s">>, <<"anchor", "ok", "d3">>}),
+          N(<<4>>, "actuator", {}), N(<<4, 1>>, "motor", {<<"joint", "ok", "s">>}),
+          N(<<5>>, "sensor", {}), N(<<5, 1>>, "rangefinder", {<<"site", "ok", "s">>})}
 SkelC == {N(<<>>, "mujoco", {}), N(<<1>>, "size", {}), N(<<2>>, "equality", {}),
-          N(<<2, 1>>, "weld", {<<"body1", "ok">>}), N(<<2, 2>>, "connect", {<<"site1", "ok">>, <<"site2", "ok">>}),
-          N(<<3>>, "sensor", {}), N(<<3, 1>>, "framepos", {<<"objtype", "ok">>, <<"objname", "ok">>}),
-          N(<<4>>, "worldbody", {}), N(<<4, 1>>, "body", {}), N(<<4, 1, 1>>, "freejoint", {}), N(<<4, 1, 2>>, "geom", {<<"size", "ok">>}),
-          N(<<4, 1, 3>>, "body", {}), N(<<4, 1, 3, 1>>, "inertial", {<<"pos", "ok">>, <<"mass", "ok">>})}
+          N(<<2, 1>>, "weld", {<<"body1", "ok", "s">>}), N(<<2, 2>>, "connect", {<<"site1", "ok", "s">>, <<"site2", "ok", "s">>}),
+          N(<<3>>, "sensor", {}), N(<<3, 1>>, "framepos", {<<"objtype", "ok", "kw">>, <<"objname", "ok", "s">>}),
+          N(<<4>>, "worldbody", {}), N(<<4, 1>>, "body", {}), N(<<4, 1, 1>>, "freejoint", {}), N(<<4, 1, 2>>, "geom", {<<"size", "ok", "v3">>}),
+          N(<<4, 1, 3>>, "body", {}), N(<<4, 1, 3, 1>>, "inertial", {<<"pos", "ok", "d3">>, <<"mass", "ok", "d1">>})}
 Init == /\ doc \in ({SkelA(rt) : rt \in (IF "A" \in Skels THEN RootTags ELSE {})}
                     \cup {SkelB : x \in Skels \cap {"B"}} \cup {SkelC : x \in Skels \cap {"C"}})
         /\ nnode = 0 /\ nattr = 0 /\ ev = Verdict(doc)
@@ -175,10 +179,12 @@ AddAttr(p, a, v) ==
   /\ LET r == RowAt(doc, p) IN
      IF r # 0 /\ a \in AttrNames(r) THEN v \in {"ok"} \cup (BadOf(TypeOf(r, a)) \cap BadSet)
      ELSE a \in {"zz", "gravity", "size"} /\ v = "ok"
-  /\ doc' = {IF n.path = p THEN [n EXCEPT !.attrs = @ \cup {<<a, v>>}] ELSE n : n \in doc}
+  /\ LET r == RowAt(doc, p)
+         ty == IF r # 0 /\ a \in AttrNames(r) THEN TypeOf(r, a) ELSE "s" IN
+     doc' = {IF n.path = p THEN [n EXCEPT !.attrs = @ \cup {<<a, v, ty>>}] ELSE n : n \in doc}
   /\ UNCHANGED nnode /\ ev' = Verdict(doc')
 Paths == {n.path : n \in doc}
-AllAttrNames == UNION {AttrNames(r) : r \in 1..20} \cup {"zz"}
+AllAttrNames == UNION {AttrNames(r) : r \in 1..24} \cup {"zz"}
 Next == \/ \E p \in Paths, t \in TagSet : AddNode(p, t)
         \/ \E p \in Paths, a \in AllAttrNames, v \in {"ok", "text", "many", "few", "nonint", "kwbad"} : AddAttr(p, a, v)
 Spec == Init /\ [][Next]_vars
@@ -189,7 +195,7 @@ SkeletonsValid == (nnode = 0 /\ nattr = 0 /\ Root(doc).tag = "mujoco") => ev.val
 CodeNeverStricter == ev.valid => ev.validcode
 HasInnerAlias == \E n \in doc : n.tag \in {"frame", "replicate"}
 DiffOnlyUnderAlias == (ev.valid # ev.validcode) => HasInnerAlias
-BogusInvalid == (\E n \in doc : n.tag = "bogus" \/ <<"zz", "ok">> \in n.attrs) => ~ev.valid
+BogusInvalid == (\E n \in doc : n.tag = "bogus" \/ <<"zz", "ok", "s">> \in n.attrs) => ~ev.valid
 BadValueInvalid == (\E n \in doc : RowAt(doc, n.path) # 0 /\
                        \E x \in n.attrs : x[1] \in AttrNames(RowAt(doc, n.path)) /\ x[2] # "ok") => ~ev.valid
 \* growing never repairs: an invalid document stays invalid except that a missing 'o' bundle / 't' partner can be completed
@@ -204,6 +210,9 @@ AllBad    == {"text", "many", "few", "nonint", "kwbad"}
 SkABC     == {"A", "B", "C"}
 SkBC      == {"B", "C"}
 SkB       == {"B"}
+SkC       == {"C"}
 Roots     == {"mujoco", "model", "body"}
 RootOK    == {"mujoco"}
+\* the table, printed once so that the harness can read it (facts check against the working tree, rendering)
+ASSUME PrintT(<<"ROWS", Row>>)
 =============================================================================
